@@ -123,7 +123,7 @@ class Prop:
             "copying form raise).  quick: (a) every ordered forest <= 3 nodes x all 6^n verdict assignments x all starts, 4-5 nodes "
             "sampled per (shape, start); (b) 2 nodes exhaustive, 3-4 nodes sampled; (c) 2 nodes exhaustive, 3 sampled; 300 random trees "
             "of 6-14 nodes with clones.  thorough: (a) <= 4 nodes exhaustive, 5 sampled; (b) <= 3 exhaustive, 4 sampled; (c) <= 3 "
-            "exhaustive, 4 sampled; 2000 random.  distinct = distinct (shape, labels, data_ids, verdicts, start); non-trivial = a "
+            "exhaustive, 4 sampled; 1200 random.  distinct = distinct (shape, labels, data_ids, verdicts, start); non-trivial = a "
             "non-empty proper subset of the scanned nodes is kept")
     exhaustive_note = ("all forest shapes <= N nodes x all 6^n verdict assignments x all starts (N=3 quick, 4 thorough); with every sibling pair as "
                        "twins and every non-sibling pair as clones: N=2 quick, 3 thorough")
@@ -135,25 +135,35 @@ class Prop:
     ]
     manifest = dict(
         text=("Machine-checked theorems (Coq 8.16, no axioms; unbounded induction over forests), for all forests with unique node identities and "
-              "all verdict assignments: the model of the (repaired: D05, D25) in-place filter equals the recursive filter spec F, also for a "
-              "branch start; the node set of F is exactly the independent set characterisation of the statement (accepted and visited, their "
-              "ancestors, everything below a select answer; visited = every proper ancestor answered True/False, before the first stop in "
-              "pre-order -- both ingredients also characterised declaratively), each node once, as an order-preserving sub-forest in which kept "
-              "nodes keep their parent (both directions); clause by clause: accepted kept, select keeps the branch, skip/stop dropped, nothing "
-              "below a skip answer; a stop answer is the last call, everything kept precedes it in pre-order and everything accepted before "
-              "it is kept; the predicate is called exactly on the reached nodes up to the stop (both scans); the model of the copying form "
-              "(parent stack with lazy materialisation) equals F plus exactly the D24 leaves modulo node identity, its nodes are new with "
-              "consecutive allocation indices (each once); in place = copying modulo those leaves, also when the predicate is given by what "
-              "it does (returned or raised signals, StopIteration; the two chains of tests classify equally).  D24 is a known finding: "
-              "the full statement for the copying form is kept and refuted on the suite's own fixture and predicate, and holds outside the "
-              "region.  The chains of tests and the loop frames of both scans are regenerated from the source text on every run and "
-              "proof obligations connect them to the model.  Tied to /repo on every run by a correspondence check (vm_compute) on all "
-              "forests <= 3 (quick) / 4 (thorough) nodes x all 6^n verdict assignments x all starts x returned/raised flavours plus sampled "
-              "and random larger trees with clones, and by an independent Python oracle of the set characterisation on pointer snapshots."),
+              "all verdict assignments.  IN PLACE (Tree.filter / Node.filter, repaired D05, D25): the property as stated -- the model of the scan "
+              "equals the filter spec F (also for a branch start), whose node set is exactly the independent set characterisation (accepted and "
+              "visited, their ancestors, everything below a select answer; visited = every proper ancestor answered True/False, before the first "
+              "stop in pre-order, both also characterised declaratively), each node once, order and parents preserved in both directions; clause "
+              "by clause: accepted kept, select keeps the branch, skip/stop dropped, nothing below a skip; a stop answer is the last call, "
+              "everything kept precedes it, everything accepted before it is kept.  COPYING (filtered / copy(predicate=)): the property as "
+              "stated does NOT hold; the exact theorems are (1) C08_copy_is_dbl_F: for all inputs the copy equals F plus one extra leaf copy "
+              "under every visited node answered True or SkipBranch(and_self=False), up to the new node identities (known finding D24, pinned "
+              "by the suite), and (2) C08_copy_refused_iff: the call raises UniqueConstraintError iff that tree has two siblings with one "
+              "data_id.  'In place = copying' as the English says it holds iff no visited node is answered True or SkipBranch(and_self=False) "
+              "(C08_copy_is_F_iff): (2/3)^n of the verdict assignments when all n nodes are visited, and for a bool-valued predicate iff nothing "
+              "at all is kept -- every bool-valued predicate that accepts at least one visited node is inside the D24 region; the copy then "
+              "has exactly one node more per such node (C08_copy_size), a kept source node occurs once, or twice inside the region "
+              "(C08_copy_occurrences), and the new identities are fresh and distinct (C08_copy_ids_fresh_and_distinct).  The full statement "
+              "is kept and refuted twice.  The predicate-call trace of the executable scans (the scans with a log at call_predicate, "
+              "which the correspondence runs) equals the spec's call list, also for raised signals; returned and raised signals classify "
+              "equally in both chains of tests.  The chains of tests and the loop frames of both scans are regenerated from the source on "
+              "every run and proof obligations connect them to the model.  Tied to /repo on every run by a correspondence check "
+              "(vm_compute) on all forests <= 3 (quick) / 4 (thorough) nodes x all 6^n verdict assignments x all starts x returned/raised "
+              "flavours, twins, clones, typed trees, random larger trees, and by an independent Python oracle on pointer snapshots."),
         note=("Trusted: Coq kernel + vm_compute; hand-written model theories/Forest/Filter.v (tied by the correspondence and the source "
               "obligations of FilterSource.v only; the target tree of the copying form is modelled by its open right spine); harness "
-              "generators/observation/oracle; allocation-index identities; gen_facts.py. In the model the source of a copying form is "
-              "unchanged by construction; that the implementation leaves it unchanged is checked by the oracle on every case. "
+              "generators/observation/oracle; allocation-index identities; gen_facts.py.  NOT a theorem: 'the copying form leaves the source "
+              "untouched' -- the model's copying form is a pure function, so the clause is true of the model by construction and cannot be "
+              "broken by a model change; it is checked on the implementation on EVERY case by the oracle (pointer snapshot of every child "
+              "list and rendering of the source before/after all copying calls: 'source changed by a copying form') and by the correspondence "
+              "(source shape after the copying calls).  The error criterion of the copying form (sibling pair with one data_id in the tree it "
+              "would build) is a modelling decision tied by the clone tiers; the partial call log of a raising call is only prefix-checked by "
+              "the oracle.  A bare control class returned (not raised) and truthy non-True values are outside the quantifier.  "
               "Print Assumptions: closed under the global context for all theorems."),
         technique="Coq proof about an executable Gallina model + differential correspondence check (vm_compute) + Python oracle",
         design_ref="DESIGN.md section 6 (C08)",
@@ -260,7 +270,7 @@ class Prop:
             yield from self._exhaustive(4, rng, sample=30)
             yield from self._exhaustive(5, rng, sample=4)
         else:
-            yield from self._exhaustive(5, rng, sample=100)
+            yield from self._exhaustive(5, rng, sample=60)
         # equal-comparing siblings under distinct data_ids, clones in different parents: twins answered differently
         yield from self._twins(2, rng)
         if tier == "quick":
@@ -270,7 +280,7 @@ class Prop:
             yield from self._clones(3, rng, sample=20)
         else:
             yield from self._twins(3, rng)
-            yield from self._twins(4, rng, sample=30)
+            yield from self._twins(4, rng, sample=20)
             yield from self._clones(2, rng)
             yield from self._clones(3, rng)
             yield from self._clones(4, rng, sample=20)
@@ -283,10 +293,10 @@ class Prop:
         else:
             yield from self._typed(2, rng)
             yield from self._typed(3, rng)
-            yield from self._typed(4, rng, sample=40)
+            yield from self._typed(4, rng, sample=25)
             yield from self._typed_stop(4, rng, reps=4)
             yield from self._typed_stop(5, rng, reps=1)
-        nrand = 300 if tier == "quick" else 2000
+        nrand = 300 if tier == "quick" else 1200
         weights = [3, 4, 1, 1, 1, 0.4]
         for _ in range(nrand):
             n = rng.randint(6, 14)
